@@ -1052,10 +1052,12 @@ def _deep_arm(f: Fn, r, arm: str, pred: str, obj: str, typ: str, container: str,
     for ret in trues:
         v = ret.value
         # form A: return isinstance(obj, K) and all(self.__type_matches(x, args[i]) for x in obj)
-        txt = norm(v)
+        txt = f.alpha.text(v)
         if not (isinstance(v, ast.Constant) and v.value is True):
-            need = ['isinstance(%s, %s)' % (obj, container)] + ['all(']
-            good = all(t in txt for t in need) and isinstance(v, ast.BoolOp) and isinstance(v.op, ast.And)
+            # the container test is part of the answer, or was already made on the way here
+            inst_here = 'isinstance(%s, %s)' % (obj, container) in txt and isinstance(v, ast.BoolOp) and isinstance(v.op, ast.And)
+            inst_before = known_instance(f.guards(ret), obj, {container})
+            good = 'all(' in txt and (inst_here or inst_before)
             for what, idx, rec in parts:
                 if rec and 'generic_type_args(%s)[%d]' % (typ, idx) not in txt:
                     good = False
